@@ -94,6 +94,17 @@ def check(an: Analysis) -> None:
             if n.kind in ("for-iter", "with-enter") and n.suspends:
                 ob3.fail(fi, n.ast, "unexpected suspension construct in the cache call path")
 
+    # ------------------------------------------------------------------ C13.8 the store is only touched before the wait
+    ob8 = an.ob("C13.8", "K6", "every operation on the entry store (lookup, move_to_end, item store / delete, popitem) of a call happens before its first suspension point: after the wait other callers have changed the store (an evicted key makes move_to_end raise KeyError for a waiter whose invocation succeeded)", [s[0] for s in ASYNC])
+    for s in sibs:
+        ops_ = s.lookups + s.moves + s.stores + s.dels + s.pops
+        sus = [n for n in s.g.nodes if n.suspends]
+        for n in ops_[:1]:
+            ob8.inst(s.fi, n.ast)
+        w = s.g.search([t for a in sus for t, lab in a.succ], lambda n: n in ops_, include_start=True) if sus and ops_ else None
+        if w is not None:
+            ob8.fail(s.fi, w[-1].ast, "the entry store is touched after the call waited: the bookkeeping runs against a store that other callers changed in the meantime", CFG.show_path(w))
+
     # ------------------------------------------------------------------ C13.4 nothing cancels
     ob = an.ob("C13.4", "K3", "no .cancel() call anywhere in helpers/caching.py: expiry and eviction only drop the entry (del / popitem), the invocation finishes and delivers to everyone already waiting")
     mod = prog.module("helpers.caching")
@@ -122,4 +133,4 @@ def _borrowed_c12(an: Analysis) -> None:
     from . import c12
 
     # C12.5: an entry stored already expired is deleted by the next caller, who starts a second invocation while the first is in flight
-    borrow(an, c12.check, {"C12.7": "C13.5", "C12.5": "C13.6"}, keep=lambda f: "_AsyncCache" in f.at)
+    borrow(an, c12.check, {"C12.7": "C13.5", "C12.5": "C13.6", "C12.4": "C13.7"}, keep=lambda f: "_AsyncCache" in f.at)
